@@ -8,7 +8,7 @@ import shutil as _sh
 use_formula_memo()
 
 OPS = ["S.new_pandas(p)", "T.q = value of S.p", "S.p = 5", "del S.p", "update_pandas(value, new)", "T.add_bases(S)", "del T.q", "model.new_pandas(mp)",
-       "S.new_pandas on a clashing name", "second spec on the same file", "S.p2 = value of S.p", "T.remove_bases(S)", "write + read", "del model.T (space holding a reference to the value)", "S.p = the value it already has", "update_pandas(value) in place (same object)"]
+       "S.new_pandas on a clashing name", "second spec on the same file", "S.p2 = value of S.p", "T.remove_bases(S)", "write + read", "del model.T (space holding a reference to the value)", "S.p = the value it already has", "update_pandas(value) in place (same object)", "S.p = the cells S.c (rebinding to a modelx object)", "S.p = the space T", "model.new_space('U', refs={'q': value of S.p})", "del U.q", "S.copy(model, 'SC')"]
 FILES = ["data/a.csv", "data/b.csv"]
 
 
@@ -81,7 +81,7 @@ def history(o1: int, o2: int, o3: int, o4: int, f1: int) -> bool:
             vid_p = st.bind.get(("S", "p"))
             if o in (1, 5, 6, 11) and "T" not in m.spaces:
                 return True
-            if o in (1, 4, 10, 14, 15) and vid_p is None:
+            if o in (1, 4, 10, 14, 15, 18) and vid_p is None:
                 return True            # operation needs the value bound to S.p
             label(OPS[o] + (" file=%s" % FILES[f1] if o in (0, 7, 9) else ""))
             with notrace():
@@ -99,6 +99,33 @@ def history(o1: int, o2: int, o3: int, o4: int, f1: int) -> bool:
                     st.bind[("T", "q")] = vid_p
             elif o == 2:
                 r = call(setattr, S, "p", 5)
+                if r[0] == "ok":
+                    st.bind.pop(("S", "p"), None)
+            elif o == 18:
+                if "U" in m.spaces:
+                    return True
+                r = call(m.new_space, "U", refs={"q": st.vals[vid_p][0]})
+                if r[0] == "ok":
+                    st.bind[("U", "q")] = vid_p
+            elif o == 19:
+                if ("U", "q") not in st.bind:
+                    return True
+                r = call(delattr, m.spaces["U"], "q")
+                if not check(r[0] == "ok", "deleting a reference given at the creation of its space", lambda: r):
+                    return False
+                st.bind.pop(("U", "q"), None)
+            elif o == 20:
+                if "SC" in m.spaces:
+                    return True
+                r = call(S.copy, m, "SC")
+                if r[0] == "ok":
+                    for (holder, nm_), vid in list(st.bind.items()):
+                        if holder == "S":
+                            st.bind[("SC", nm_)] = vid
+            elif o in (16, 17):
+                if "p" not in S.refs or (o == 17 and "T" not in m.spaces):
+                    return True
+                r = call(setattr, S, "p", S.c if o == 16 else T)
                 if r[0] == "ok":
                     st.bind.pop(("S", "p"), None)
             elif o == 3:
@@ -206,7 +233,7 @@ QUERIES = [
                                          [dict(o1=a, o2=0, o3=[0, 4], o4=-1, f1=1) for a in (7, 8, 5)]) if tier == "quick" else
           [dict(o1=0, o2=a, o3=b, f1=f) for a in range(NO) for b in range(NO) for f in (0, 1)],
           natives=[dict(o1=a, o2=b, o3=c, o4=d, f1=f) for (a, b, c, d, f) in
-                   ((0, 1, 3, 12, 0), (0, 4, 10, 12, 1), (0, 5, 2, -1, 0), (0, 10, 3, 6, 0), (7, 0, 9, 12, 0), (0, 8, 9, 3, 1), (0, 1, 6, 3, 0), (0, 5, 11, 12, 0), (0, 2, 0, 12, 1), (0, 1, 13, 3, 0), (0, 14, 3, -1, 0), (0, 1, 3, 13, 0), (0, 14, 12, -1, 1), (0, 15, 3, -1, 0), (0, 1, 15, 12, 0), (0, 15, 12, -1, 1))],
+                   ((0, 1, 3, 12, 0), (0, 4, 10, 12, 1), (0, 5, 2, -1, 0), (0, 10, 3, 6, 0), (7, 0, 9, 12, 0), (0, 8, 9, 3, 1), (0, 1, 6, 3, 0), (0, 5, 11, 12, 0), (0, 2, 0, 12, 1), (0, 1, 13, 3, 0), (0, 14, 3, -1, 0), (0, 1, 3, 13, 0), (0, 14, 12, -1, 1), (0, 15, 3, -1, 0), (0, 1, 15, 12, 0), (0, 15, 12, -1, 1), (0, 16, 9, -1, 0), (0, 17, 12, -1, 0), (0, 1, 16, 6, 0), (0, 10, 17, 3, 1), (0, 18, 3, 12, 0), (0, 18, 19, 3, 0), (0, 20, 3, 12, 1), (0, 20, 2, -1, 0))],
           bounds=lambda tier: {"operations": OPS, "history_length": "3 after the first new_pandas (quick) / 3 free (thorough); selected 4-step histories ending in write+read",
                                "holders": ["S", "T", "model"], "files": FILES},
           outside=["new_module / new_excel_range specs", "several models sharing absolute paths", "histories longer than 4"]),
